@@ -519,48 +519,59 @@ func (e *env) doDelete(o op, judge bool) {
 		e.violate("delete-store-unreadable", "after Delete: "+strings.Join(a.errs, "; "), extra)
 		return
 	}
-	// nodes
+	// nodes: every mismatch is collected, the most specific one is reported
+	type cand struct {
+		prio      int
+		key, what string
+	}
+	var best *cand
+	offer := func(prio int, key, what string) {
+		if best == nil || prio < best.prio {
+			best = &cand{prio, key, what}
+		}
+	}
 	for _, nd := range e.g.Nodes {
 		n := nd.ID
 		if !e.m.stored[n] {
 			if a.exists[n] {
-				e.violate("delete-created-node", fmt.Sprintf("node %s appeared during Delete", e.nodeName(n)), extra)
-				return
+				offer(0, "delete-created-node", fmt.Sprintf("node %s appeared during Delete", e.nodeName(n)))
 			}
 			continue
 		}
 		switch {
 		case R[n] && a.exists[n]:
-			key := "delete-leaves-garbage"
 			what := fmt.Sprintf("Delete(%s, AutoGC=%v): node %s is untagged garbage after the deletion (it lost its subject / last predecessor) but is still present", e.nodeName(t), o.AutoGC, e.nodeName(n))
-			if n == t {
-				key, what = "delete-target-still-present", fmt.Sprintf("Delete(%s) returned nil but the content is still present", e.nodeName(t))
-			} else if e.m.everTagged[n] {
-				key = "stale-tag-set"
-				what += " (it carried a tag earlier in the history; the tag was moved or removed since)"
+			switch {
+			case n == t:
+				offer(0, "delete-target-still-present", fmt.Sprintf("Delete(%s) returned nil but the content is still present", e.nodeName(t)))
+			case e.m.everTagged[n]:
+				offer(1, "stale-tag-set", what+" (it carried a tag earlier in the history; the tag was moved or removed since)")
+			default:
+				offer(4, "delete-leaves-garbage", what)
 			}
-			e.violate(key, what, extra)
-			return
 		case !R[n] && !a.exists[n]:
-			key := "delete-removes-unrelated-node"
-			reason := "which is neither the target, nor an untagged referrer of removed content, nor a node that lost its last predecessor"
 			survivingPred := -1
 			for _, p := range e.m.storedPreds(n) {
 				if a.exists[p] {
 					survivingPred = p
 				}
 			}
+			pre := fmt.Sprintf("Delete(%s, AutoGC=%v) removed node %s, ", e.nodeName(t), o.AutoGC, e.nodeName(n))
 			switch {
 			case tagged[n] && nd.Subject >= 0 && !a.exists[nd.Subject]:
-				key, reason = "delete-removes-tagged-referrer", "which carries a tag (tagged referrer of removed content)"
+				offer(0, "delete-removes-tagged-referrer", pre+"which carries a tag (tagged referrer of removed content)")
 			case tagged[n]:
-				key, reason = "delete-removes-tagged-node", "which carries a tag"
+				offer(1, "delete-removes-tagged-node", pre+"which carries a tag")
 			case survivingPred >= 0:
-				key, reason = "delete-removes-linked-node", fmt.Sprintf("which surviving node %s still links to", e.nodeName(survivingPred))
+				offer(2, "delete-removes-linked-node", pre+fmt.Sprintf("which surviving node %s still links to", e.nodeName(survivingPred)))
+			default:
+				offer(5, "delete-removes-unrelated-node", pre+"which is neither the target, nor an untagged referrer of removed content, nor a node that lost its last predecessor")
 			}
-			e.violate(key, fmt.Sprintf("Delete(%s, AutoGC=%v) removed node %s, %s", e.nodeName(t), o.AutoGC, e.nodeName(n), reason), extra)
-			return
 		}
+	}
+	if best != nil {
+		e.violate(best.key, best.what, extra)
+		return
 	}
 	// tags
 	for ref, n := range e.m.tags {
